@@ -269,7 +269,8 @@ func copyVal(v value) value {
 	return v
 }
 
-func load(addr *value) value   { return copyVal(*addr) }
+func load(addr *value) value { return copyVal(*addr) }
+
 // store copies v into the slot. Structs and arrays are copied IN PLACE, element by element, as Go does:
 // a pointer to a field or element taken before the assignment (go/ssa emits "t = &b.f; *b = T{}; *t = x"
 // for "*b = T{f: x}") still points into the variable afterwards.
